@@ -167,6 +167,13 @@ def run(tier, replay=None):
         "of solved responses, which is a numerical consequence of this "
         "transpose identity, the operator symmetry (C02) and the solver "
         "tolerance (C01)"]
+    if not replay:
+        res = C.run_tlc("PointLemma", "PointLemma.cfg" if tier == "quick"
+                        else "PointLemma_T.cfg", timeout=2400)
+        C.expect_tlc_ok(rep, "PointLemma: partition of unity and no magnetic "
+                        "response of gradients, every lattice point of the "
+                        "admissible region of small grids", res, "C09")
+        rep.cov["exhaustive"] = True
     if replay:
         with open(replay) as f:
             j = json.load(f)["case"]
